@@ -1,5 +1,7 @@
 SPECIFICATION Spec
 CONSTANTS Clients = {"c1", "c2"}  MaxDg = 6  MaxAssoc = 5  PacketsCap = 2  ReadCap = 1  CloseCap = 2  ReadsBeforeReturn = 1  Mode = "fixed"
+  Shutdown = FALSE
+  CloseGivesUp = FALSE
 INVARIANTS NoCrash NoStaleDelete OwnClientOnly InOrder NoLateQueue
 VIEW View
 CHECK_DEADLOCK FALSE
